@@ -17,6 +17,9 @@ enum AnyStream {
 
 struct SubInfo {
     stream: Option<AnyStream>,
+    /// the VectorSubscriber as returned by subscribe(), not yet turned into a stream: the conversion
+    /// happens at the first poll (whatever was sent in between must still be delivered)
+    unconverted: Option<(eyeball_im::VectorSubscriber<u32>, bool)>,
     cw: Arc<CountWaker>,
     waker: Waker,
     seen_wakes: usize,
@@ -255,7 +258,30 @@ impl World {
         let cap = self.cap;
         let shadow = self.shadow.clone();
         let fin = self.fin.clone();
+        let nout = self.out.len();
         let s = &mut self.subs[k];
+        if let Some((sub, batched)) = s.unconverted.take() {
+            // one of the four ways of turning the subscriber into a stream, chosen by position
+            let by_pair = nout % 2 == 0;
+            s.stream = Some(match (batched, by_pair) {
+                (false, false) => AnyStream::Plain(Box::pin(sub.into_stream())),
+                (false, true) => {
+                    let (v, st) = sub.into_values_and_stream();
+                    if !v.iter().eq(s.replica.iter()) {
+                        s.app_ok = false;
+                    }
+                    AnyStream::Plain(Box::pin(st))
+                }
+                (true, false) => AnyStream::Batched(Box::pin(sub.into_batched_stream())),
+                (true, true) => {
+                    let (v, st) = sub.into_values_and_batched_stream();
+                    if !v.iter().eq(s.replica.iter()) {
+                        s.app_ok = false;
+                    }
+                    AnyStream::Batched(Box::pin(st))
+                }
+            });
+        }
         let waker = s.waker.clone();
         let mut cx = Context::from_waker(&waker);
         let Some(stream) = s.stream.as_mut() else {
@@ -384,6 +410,7 @@ impl World {
             "dropsub" => {
                 let k = args(arg)[0];
                 self.subs[k].stream = None;
+                self.subs[k].unconverted = None;
                 self.subs[k].live = false;
                 self.out.push(".".into());
                 true
@@ -693,20 +720,16 @@ pub fn run_line(line: &str, out: &mut String) {
         } else if name == "sub" {
             let o = ob.as_ref().unwrap();
             let sub = o.subscribe();
-            let (snap, stream) = if arg == "(b)" {
-                let (v, s) = sub.into_values_and_batched_stream();
-                (v, AnyStream::Batched(Box::pin(s)))
-            } else {
-                let (v, s) = sub.into_values_and_stream();
-                (v, AnyStream::Plain(Box::pin(s)))
-            };
+            let snap = sub.values();
+            let batched = arg == "(b)";
             let cw = Arc::new(CountWaker(AtomicUsize::new(0)));
             let waker = Waker::from(cw.clone());
             let k = w.subs.len();
             let ok = snap.iter().eq(w.shadow.iter());
             w.out.push(format!("#{}={}{}", k, show_vec(snap.iter()), if ok { "" } else { " ok:plain=0" }));
             w.subs.push(SubInfo {
-                stream: Some(stream),
+                stream: None,
+                unconverted: Some((sub, batched)),
                 cw,
                 waker,
                 seen_wakes: 0,
